@@ -20,6 +20,9 @@ def _core(v):
         return lax.switch(jnp.int32(1) + (v[0] > 100).astype(jnp.int32), [lambda u: u + 1.0, lambda u: u * 2.0, lambda u: u - 3.0], v)
     if c == "reverse_scan":
         return lax.scan(lambda cc, rr: (cc * 0.5 + rr, cc), v, jnp.stack([v, v * 2.0, v * 3.0]), reverse=True)[0]
+    if c == "reverse_scan_len":
+        (cc, _), ys = lax.scan(lambda cj, _: ((cj[0] * 0.5 + 1.0, cj[1] + 1.0), cj[0] * (cj[1] + 1.0)), (v, jnp.float32(0.0)), None, length=3, reverse=True)
+        return cc + ys[0] * 0.25 + ys[2]
     if c == "fori_traced_bounds":
         return lax.fori_loop(0, (v[0] > 100).astype(jnp.int32) + 2, lambda i, cc: cc * 0.5 + 1.0, v)
     raise KeyError(c)
